@@ -947,7 +947,8 @@ pub fn run(args: &[String]) {
             c.push_str(&l);
         }
         progress.store(i + 1, Ordering::SeqCst);
-        let r = exec(i + 1, &l);
+        // an op that is not individually guarded and unwinds is reported as the outcome `P` for the whole case
+        let r = catch_unwind(AssertUnwindSafe(|| exec(i + 1, &l))).unwrap_or_else(|_| "P".to_string());
         let mut buf = done_out.lock().unwrap();
         if verbose {
             writeln!(buf, "{l} => {r}").unwrap();
